@@ -229,6 +229,66 @@ CHECKS = {
 }
 
 
+# Session 3: what was added on top of the texts above (semantic tier A = the source structure is regenerated as data in a small DSL on every
+# run and the DENOTATION of that data is proved equal to the hand-written model function the theorems are stated on; DESIGN.md §4.22).
+TIER_A = " Semantic tier A (DESIGN §4.22), regenerated from /repo on every run with Gen = expected and denotation = model theorems: "
+S3 = {
+    "C01": dict(
+        text=(" Unequal sample sizes are now PROVED: for non-parametric QuantileMapping with cm_future = cm_hist, any sizes n (obs), m (tie-free cm_hist): -range(obs)/n <= mean(out) - mean(obs) <= range(obs)/m "
+              "(qm_nonparam_mean_bounds; both sides attained in the limit); for CDFt's default pair |residual| <= range(obs)(1/n + 1/m) under the range guard of cdft_perm (without it the bound is false on the real code). "
+              "The oracle checks the proved interval on the real code for n != m." + TIER_A + "the per-window dataflow of CDFt / ECDFM / QDM / QuantileMapping / SDM (Gen/DebWin)."),
+        note=("PARTIAL (reduced): the quantitative clause is proved window-free (QuantileMapping for all sizes; CDFt under the range guard); through seasonal windows and for CDFt outside the guard it is still decided by the search on the real code "
+              "(limit max(2*range/n, 0.25*|bias|), judged when every window sees >= 200 values). Trusted: scipy.stats.norm / gamma assumed to satisfy the location-scale laws; real window index sets (C07).")),
+    "C02": dict(text=TIER_A + "per-window dataflow of CDFt, ECDFM, QDM, QuantileMapping, SDM absolute and relative (Gen/DebWin), ISIMIP steps 3 / 5 / 7 (Gen/IsimipSteps). The oracle also drives the public constructors and apply under arbitrary process histories (other constructions / uses before, between and after), all time encodings, memory layouts, serial / parallel / failsafe."),
+    "C03": dict(text=TIER_A + "per-window dataflow of CDFt, ECDFM, QDM, QuantileMapping (Gen/DebWin). The oracle also covers one-step / few-step futures, one-year year windows and single fits of 5 000 - 22 000 values for every configuration."),
+    "C04": dict(text=" The oracle also drives every call form of apply (failsafe, parallel, progress bar, layouts, time encodings, data in K or degC, construction history)."),
+    "C05": dict(text=TIER_A + "map_over_locations, parallel_map_over_locations, the catch wrapper and both apply dispatches as specs with roles resolved by Python's argument binding (Gen/GridLoops): denotation = applySerial / applyParallel for every schedule (also chunked and stateful) / runCatch / debiaserApply / deltaChangeApply. "
+              "Model/GridRefresh: an instance re-derived at every apply gives history-independent, serial = parallel results (refreshed_instance_*). The oracle also covers call histories on one instance and every input kind (seven dtypes x plain / read-only / byte-swapped / masked in six ways x five layouts)."),
+    "C06": dict(
+        text=(" Session 3: ISIMIP time-order equivariance is proved on the separate-lists model (values with separate year / day-of-year / month lists - the functions the correspondence ties to the code) for EVERY configuration incl. detrending and bound / threshold pairs "
+              "(Props/C06Detrend: isimip_apply_location_years_time_order_equivariant, ..._months_...); the loops themselves are tier A (Gen/Loops)."),
+        note=("Remaining guards (explicit hypotheses): tie-free ranked values per window (np.argsort is not stable; the property's own guard), the p-value / KS decisions and the random draws are per-window model parameters passed identically to both runs (hkey). "
+              "KNOWN FINDING F21: ISIMIP step 2 imputation (prsnratio with missing values) assigns the imputed values by storage position - proved order-dependent by witness on the model and reproduced on the real code; printed as KNOWN-FINDING. "
+              "Draws attached to array positions (CDFt SSR, hurdle randomisation, the cdf of censored values) make the result equivariant in distribution only; those steps are excluded from the comparison.")),
+    "C07": dict(
+        text=TIER_A + "the six write-back loops and both `use` generators (Gen/Loops: denote = applyLocationRW / DC / Months / applyYears for every element type and window function; the skip of centres that adjust nothing), the calendar helpers day_of_year / month / year / season / create_array_of_consecutive_dates (Gen/CalendarFns: denotation = Model.Calendar). "
+             "Props.C07.composed_cover_unique: exact cover of the composed day x year loops with no lower bound on the sample size; the oracle runs the real CDFt / QDM with both loops down to one-value windows.",
+        note=("Trusted: Lean kernel + propext/Classical.choice/Quot.sound; the extractors (strict: anything outside the recognised shapes is a broken tie); numpy fancy-index semantics; Python's datetime for the harness' own calendar and `timetuple().tm_yday` as the proleptic Gregorian day of year. "
+              "The loop bodies read only the inputs (modelled as compute-writes-then-apply). Finite output of the real debiasers is an oracle clause (scipy fits are outside the model).")),
+    "C08": dict(text=TIER_A + "the running-window loops of RunningWindowDebiaser / DeltaChange / ISIMIP (Gen/Loops). The oracle also perturbs unevenly across years on 5-10-year series with trends / level shifts and compares every year's step on the target day."),
+    "C09": dict(text=" Session 3: the positive-ratio guard of the multiplicatively detrended QuantileMapping was sufficient, not necessary - qm_*_mono_signed prove monotonicity for every delta != 0 (the code divides and multiplies by the same signed delta). The oracle also covers values exactly on thresholds, signed data and dated series in every storage order."),
+    "C10": dict(text=TIER_A + "ISIMIP steps 1-8 per-element logic (Gen/IsimipSteps: transfer trend in all four branches with ordered mask assignments, step 3 / 7, step 4 randomisation, bound masks with Python slice semantics, steps 1 / 8 scaling by the annual cycle), SDM relative (sdm_relative_denote, unconditional) and the CDFt SSR steps (Gen/DebWin). The oracle also judges every cell of the public grid entry point apply (serial / parallel / failsafe / layouts / encodings / construction paths)."),
+    "C11": dict(text=" Session 3: scale_proportional (each rescaled count is a nearest integer of its proportional share - excludes 'lower keeps its count, upper gets the rest'); stated_clauses_do_not_pin_formula (a second four-branch formula satisfies all three stated clauses: a change of the formula that keeps them is reported without failing input by design). The oracle computes the windows itself, covers twin calendars, asymmetric over-claims and calls without time information on the documented inferred calendar."),
+    "C12": dict(
+        text=TIER_A + "the provenance programs of all eight debiasers (apply_location and every ibicus function reachable from it; 1 623 statements) are regenerated from the AST (Gen/Purity) and accepted by a checker proved sound against a heap semantics (gen_<Class>_accepted by decide +kernel => gen_inputs_preserved: caller buffers unchanged, result fresh). "
+             "The oracle also sweeps window settings incl. even values over multi-step futures with repeat / interleaved calls.",
+        note=("PARTIAL by nature: numpy's real view/copy behaviour and the absence of hidden writes inside numpy / scipy routines are TRUSTED assumptions (the table NpOp.aliases; ecdf / iecdf / scipy / statsmodels summarised as 'new array, writes no operand'), validated by the probes, not proved; "
+              "loop bodies are unrolled 0/1/2 times, settings branches are joined (conservative); the entry through Debiaser.apply / map_over_locations is covered by the hand-written model and the probes; parallel=True is C05's.")),
+    "C13": dict(text=TIER_A + "the catch wrapper, both map functions and both apply dispatches (Gen/GridLoops), incl. the caught class and both exits of the handler."),
+    "C14": dict(text=" The oracle also runs call sessions on one debiaser object and a construction matrix (every debiaser x variable x construction path incl. for_precipitation / restated keywords) judged against the variable's own range."),
+    "C15": dict(text=" The oracle also judges the support outcome under keyword overrides (subsets of the variable's own default keys x spellings) and one-sided ISIMIP configurations (the side without bound / threshold must be treated as absent: no non-finite fixed parameter reaches the distribution's fit, no silent fallback that the fit itself did not cause)."),
+    "C16": dict(text=TIER_A + "ecdf, iecdf, IECDF, the three quantile maps and sort_array_like_another_one as numpy-expression terms (Gen/Stats): denotation = Model.Stats for every method literal and the error fall-through (50 theorems). The oracle also covers related sample pairs (same object / values, permuted, shifted, nearly equal ...) and n-d evaluation arrays in five memory layouts."),
+    "C17": dict(
+        text=TIER_A + "hurdle / ignore-zeros / censored-gamma fit, cdf, ppf and the factory read element-wise from the AST (Gen/Precip, 15 Gen = Model theorems); Props/C17Gen restates the property on the generated definitions under numpy's draw contract. The oracle also runs the real fits on 1-9 wet values, tied / coarse amounts, flux units.",
+        note="Trusted: scipy families are assumed to satisfy the amounts laws; MLE / Nelder-Mead fits are extern parameters; np.random.uniform's range as documented; the element-wise reading of np.where / mask assignment by translator/extract_precip.py."),
+    "C18": dict(text=" The oracle also covers dtype-range magnitudes (subnormal ... 2^1000), per-argument precision mixes judged against the exact formula with a forward error bound, and large grids with retained results."),
+    "C19": dict(
+        text=TIER_A + "threshold-type and scope dispatch, the literal spell-length expression as a term of a numpy-expression DSL (spellExpr_denote), the per-location formulas and from_quantile (Gen/Metrics, 29 theorems; Props/C19Gen), the calendar helpers (Gen/CalendarFns). "
+             "The oracle also covers values 1-8 ulp beyond thresholds at flux / Kelvin / 1e6 / denormal magnitudes, the ten shipped metric objects, thresholds written in mixed numeric types.",
+        note=("Trusted: scipy.ndimage.label (oracle law re-checked per case), the internals of the pandas merge / np.isin / np.quantile (parameters of the regenerated definitions, hand-modelled in Model/MetricsDispatch and tied by tier B); numpy aliasing observed "
+              "(np.shares_memory + byte comparison), not modelled.")),
+    "C20": dict(
+        text=TIER_A + "the eleven grid-level helpers and the five public functions (Gen/EvaluateGrid): Prog.den = gridEval cells (per-location model function) on every non-empty grid (the global np.all guards are exactly gridEval's abort), row order of the frames, call-site wiring of raw / bc x validate / future and their time axes, RMSE loops. "
+             "The oracle also covers look-alike time axes, partially undefined grids and mixed-type thresholds.",
+        note=("np.corrcoef / sqrt stay extern parameters (exact covariances from the driver); the two utils helpers (_unpack_df_of_numpy_arrays, list-of-two unpacking) are tied by normalised text; only overall/global "
+              "metrics in this model (time-scoped ones are C19). The conditional exceedance is pinned on the percent scale the code returns.")),
+}
+for _pid, _d in S3.items():
+    CHECKS[_pid]["text"] += _d.get("text", "")
+    if "note" in _d:
+        CHECKS[_pid]["note"] = _d["note"]
+
+
 def main():
     checks = []
     for pid, c in sorted(CHECKS.items()):
